@@ -644,6 +644,10 @@ C12_conv(g, o, o2) ==
             /\ o2.w[i].resp = g.rl.file[j].resp /\ o2.w[i].hup = g.rl.file[j].hup
             /\ \E x \in 1..Len(o2.wl) : o2.wl[x] = o2.w[i].n
       /\ \A x \in 1..Len(o2.wl) : \E j \in 1..Len(g.rl.file) : g.rl.file[j].n = o2.wl[x]
+      \* a section with autostart off that this reload added or changed is left stopped, as a fresh start would leave it
+      /\ \A j \in 1..Len(g.rl.file) :
+            (~g.rl.file[j].auto /\ ~(\E j0 \in 1..Len(g.file) : g.file[j0] = g.rl.file[j])) =>
+               \A i \in WIdx(o2) : o2.w[i].ln = g.rl.file[j].ln => (o2.w[i].st = "stopped" /\ o2.w[i].pr = <<>>)
 \* a section that is word for word what the daemon loaded before keeps every worker that is still alive
 C12_keep(g, o, o2) ==
    RlDone(g, o, o2) =>
